@@ -476,6 +476,9 @@ def vtype(name: str):
 
 def make_helper(name: str, args: list):
     try:
+        if name.startswith('ctor:'):
+            # built through the helper class's constructor (what a program assembling an FGD does), not through its argument parser
+            return fgd_mod.HELPER_IMPL[HelperTypes(name[5:])](*[tuple(a) if isinstance(a, list) else a for a in args])
         typ = HelperTypes(name)
     except ValueError:
         return UnknownHelper(name, list(args))
@@ -564,6 +567,7 @@ SHORT_STRINGS = [
     ('bslash', 'a\\b'), ('bslash_end', 'path\\'), ('bslash_n', 'a\\nb'), ('bslash2', 'a\\\\b'),
     ('nl', 'line1\nline2'), ('nl_end', 'line\n'), ('tab', 'a\tb'),
     ('sq', "it's"), ('dsq', "a''b"), ('plus', 'a + b'), ('colon', 'a : b'), ('brackets', '[x] (y) {z} = ,'),
+    ('cr', 'Line one.\rLine two.'), ('cr_end', 'x\r'), ('crlf', 'a\r\nb'), ('cr_only', '\r'),
     ('slashes', 'a // b /* c */'), ('hash', '#snippet @x'), ('latin1', 'café'), ('space_only', ' '),
 ]
 LONG = long_strings()
@@ -581,6 +585,11 @@ HELPER_MENU = [
     ('line5', 'line', ['255 0 0', 'targetname', 'target', 'targetname', 'target2']),
     ('frustum0', 'frustum', []), ('frustum5', 'frustum', ['fov', 'nearz', 'farz', 'lightcolor', '-1']),
     ('frustum_num', 'frustum', ['45.5', '1', '1024', '255 255 255', '1']),
+    # a colour argument that is neither a key name nor three numbers (a _light style literal with brightness; a pair)
+    ('frustum_rgba', 'frustum', ['fov', 'nearz', 'farz', '255 255 255 200', '-1']), ('frustum_pair', 'frustum', ['fov', 'nearz', 'farz', '255 255', '-1']),
+    ('frustum_ctor_key', 'ctor:frustum', ['_fov', 4.0, '_farz', '_light', -1.0]), ('frustum_ctor_rgb', 'ctor:frustum', [45.5, 1.0, 1024.0, [255.0, 128.0, 64.0], 1.0]),
+    ('frustum_ctor_rgba', 'ctor:frustum', ['_fov', 4.0, '_farz', '255 255 255 200', -1.0]), ('frustum_ctor_keys', 'ctor:frustum', ['a', 'b', 'c', 'd', 'e']),
+    ('sphere_ctor', 'ctor:sphere', [255.0, 128.0, 0.0, 'radius']), ('sphere_ctor_frac', 'ctor:sphere', [0.5, 128.0, 0.25, 'dist']),
     ('cyl3', 'cylinder', ['255 255 255', 'targetname', 'start']),
     ('cyl4', 'cylinder', ['255 255 255', 'targetname', 'start', 'radius']),
     ('cyl6', 'cylinder', ['255 255 255', 'targetname', 'start', 'radius', 'targetname', 'end']),
@@ -647,6 +656,11 @@ def menus() -> dict:
         spec['ignore_unknown'] = True
     m['k1.type'].append(('custom', False, custom_kv))
 
+    def custom_kv_upper(spec):
+        key1(spec)['type'] = 'custom:Vector2D'
+        spec['ignore_unknown'] = True
+    m['k1.type'].append(('custom_upper', False, custom_kv_upper))
+
     # B. empty display name / default / description in all combinations
     def empties(mask):
         def f(spec):
@@ -708,6 +722,12 @@ def menus() -> dict:
         ent_a(spec)['ins'][0]['type'] = 'custom:my_type'
         spec['ignore_unknown'] = True
     m['in1.type'].append(('custom', False, custom_io))
+
+    def custom_io_upper(spec):
+        ent_a(spec)['ins'][0]['type'] = 'custom:Vector2D'
+        ent_a(spec)['outs'][0]['type'] = 'custom:MixedCase_T'
+        spec['ignore_unknown'] = True
+    m['in1.type'].append(('custom_upper', False, custom_io_upper))
     m['out1.type'] = [(t, t == 'BOOL', (lambda t: lambda spec: ent_a(spec)['outs'][0].update(type=t))(t))
                       for t in ('BOOL', 'TARG_DEST', 'VEC_LINE', 'FLOAT', 'SPAWNFLAGS')]
     m['in1.desc'] = [('empty', False, lambda spec: ent_a(spec)['ins'][0].update(desc=''))] + [
